@@ -24,6 +24,9 @@ from .seq import SSeq, lift
 from .symdict import SymDict, sym_key
 
 
+_NOHIT = object()
+
+
 class _Return(BaseException):
     def __init__(self, v):
         self.v = v
@@ -364,7 +367,7 @@ def p_ord(I, x):
     if isinstance(x, SSeq):
         if x.clen() != 1:
             raise TypeError("ord() expected a character")
-        return mk_int(z3.BV2Int(x.elems[0]))
+        return core.mk_int_bv(x.elems[0])
     return ord(x)
 
 
@@ -372,6 +375,8 @@ def p_chr(I, x):
     if isinstance(x, SInt):
         from .seq import WS
 
+        if x.bv is not None and x.bv.size() <= WS:
+            return SSeq("str", [z3.ZeroExt(WS - x.bv.size(), x.bv) if x.bv.size() < WS else x.bv], 1)
         if not ctx().decide(z3.And(x.e >= 0, x.e < 0x110000)):
             raise ValueError("chr() arg not in range(0x110000)")
         return SSeq("str", [z3.Int2BV(x.e, WS)], 1)
@@ -612,7 +617,7 @@ class Interp:
             return f(*args, **kwargs)
         flags = kwargs.pop("flags", 0)
         pat = re.compile(allargs[0], flags)
-        return rx.METHODS[rname](pat, *allargs[1:], **kwargs)
+        return rx.METHODS[rname](pat, *[self.wrap_callable(a) for a in allargs[1:]], **kwargs)
 
     def call_builtin(self, f, args, kwargs):
         recv = getattr(f, "__self__", None)
@@ -673,6 +678,13 @@ class Interp:
         if type(recv) is dict or isinstance(recv, dict):
             if name in ("get", "__getitem__", "__contains__", "pop", "setdefault", "__setitem__", "__delitem__"):
                 key = args[0]
+                if sym_key(key) and name in ("get", "__getitem__") and isinstance(key, SSeq) and len(recv) > 8:
+                    r = self.table_lookup(recv, key)
+                    if r is not _NOHIT:
+                        return r
+                    if name == "get":
+                        return args[1] if len(args) > 1 else kwargs.get("default")
+                    raise KeyError(key)
                 if sym_key(key):
                     for k in list(dict.keys(recv)):
                         if truth(s_eq(key, k)):
@@ -702,11 +714,73 @@ class Interp:
                 raise Unsupported("adding a symbolic member to a native set")
         raise Unsupported(f"{type(recv).__name__}.{name} with symbolic key")
 
+    def table_lookup(self, table, key):
+        """table[key] for a symbolic str/bytes key over a large concrete table whose
+        values are str/bytes: forks only on the *shape* (length) of the value and
+        builds the value element-wise as an if-then-else over the matching keys"""
+        klen = key.clen()
+        ktype = str if key.kind == "str" else bytes
+        groups = {}
+        for k, v in dict.items(table):
+            if type(k) is not ktype or len(k) != klen or not isinstance(v, (str, bytes)):
+                if type(k) is ktype and len(k) == klen:
+                    groups = None
+                    break
+                continue
+            groups.setdefault((type(v), len(v)), []).append((k, v))
+        if groups is None:
+            # values of other types: fall back to key-by-key forking
+            for k in list(dict.keys(table)):
+                if truth(s_eq(key, k)):
+                    return dict.__getitem__(table, k)
+            return _NOHIT
+        c = ctx()
+        for (vt, vl), ents in groups.items():
+            conds = []
+            for k, v in ents:
+                kk = [ord(ch) for ch in k] if ktype is str else list(k)
+                conds.append(z3.And(*[e == x for e, x in zip(key.elems, kk)]) if klen else z3.BoolVal(True))
+            if not c.decide(z3.Or(*conds) if len(conds) > 1 else conds[0]):
+                continue
+            w = 21 if vt is str else 8
+            # result elements are fresh variables tied to the key by implications (one
+            # per distinct output value): keeps downstream terms small
+            elems = []
+            fid = next(c.fresh)
+            for j in range(vl):
+                r = z3.BitVec(f"tbl{fid}_{j}", w)
+                byval = {}
+                for cnd, (k, v) in zip(conds, ents):
+                    byval.setdefault(ord(v[j]) if vt is str else v[j], []).append((cnd, k))
+                if len(byval) == 1:
+                    elems.append(z3.BitVecVal(next(iter(byval)), w))
+                    continue
+                for val, lst in byval.items():
+                    if klen == 1:
+                        from .seq import in_ranges, ranges_of
+
+                        ks = sorted((ord(k) if ktype is str else k[0]) for _, k in lst)
+                        pre = in_ranges(key.elems[0], ranges_of(ks))
+                    else:
+                        pre = z3.Or(*[cn for cn, _ in lst]) if len(lst) > 1 else lst[0][0]
+                    c.solver.add(z3.Implies(pre, r == val))
+                elems.append(r)
+            c.model = None
+            return SSeq("str" if vt is str else "bytes", elems, vl)
+        return _NOHIT
+
     def pattern_call(self, pat, name, args, kwargs):
         m = rx.METHODS.get(name)
         if m is None:
             raise Unsupported(f"re.Pattern.{name} on symbolic subject")
+        args = [self.wrap_callable(a) for a in args]
         return m(pat, *args, **kwargs)
+
+    def wrap_callable(self, a):
+        """callbacks handed to primitive models run through the interpreter"""
+        if isinstance(a, (types.FunctionType, types.MethodType)) and not isinstance(a, Closure):
+            return lambda *x, **k: self.call(a, x, k)
+        return a
 
     def construct(self, cls, args, kwargs):
         prim = PRIMS.get(cls) if cls.__hash__ else None
